@@ -26,13 +26,13 @@ func init() {
 	}
 	mon.Register(&mon.Prop{
 		ID: "C04", Level: "exploration",
-		Rule: "complete enumeration of ACGT strings (and IUPAC strings to a shorter length) under all four topology/strandedness combinations, each also in lower and mixed case and in RNA spelling, each call compared with the digest of the oracle's canonical form (which is rotation/strand invariant by construction, and every rotation and the reverse complement of every enumerated string is itself enumerated); random long inputs with explicit calls on a random rotation, the reverse complement, a case change and the RNA spelling; non-trivial = length >= 2 with two different letters; distinct by hash of (string, flags)",
+		Rule:        "complete enumeration of ACGT strings (and IUPAC strings to a shorter length) under all four topology/strandedness combinations, each also in lower and mixed case and in RNA spelling, each call compared with the digest of the oracle's canonical form (which is rotation/strand invariant by construction, and every rotation and the reverse complement of every enumerated string is itself enumerated); random long inputs with explicit calls on a random rotation, the reverse complement, a case change and the RNA spelling; non-trivial = length >= 2 with two different letters; distinct by hash of (string, flags)",
 		Assumptions: assume, Shards: tierShards(8, 16), WatchdogSec: tierSecs(600, 3600),
 		Run: func(w *mon.W) { runSeqhash(w, false) },
 	})
 	mon.Register(&mon.Prop{
 		ID: "C05", Level: "exploration",
-		Rule: "complete enumeration of ACGT strings under the four flag combinations, protein-alphabet strings, every single invalid byte per molecule type, unknown type names and double-stranded proteins; value compared with 'v1_' + tag + '_' + hex(BLAKE3-256(oracle canonical form)); the hash partition is compared with the brute-force orbit partition on a complete small space in one process; non-trivial = length >= 2 with two different letters, or a rejection case; distinct by hash of (string, type, flags)",
+		Rule:        "complete enumeration of ACGT strings under the four flag combinations, protein-alphabet strings, every single invalid byte per molecule type, unknown type names and double-stranded proteins; value compared with 'v1_' + tag + '_' + hex(BLAKE3-256(oracle canonical form)); the hash partition is compared with the brute-force orbit partition on a complete small space in one process; non-trivial = length >= 2 with two different letters, or a rejection case; distinct by hash of (string, type, flags)",
 		Assumptions: assume, Shards: tierShards(8, 16), WatchdogSec: tierSecs(600, 3600),
 		Run: func(w *mon.W) { runSeqhash(w, true) },
 	})
@@ -186,6 +186,9 @@ func runSeqhash(w *mon.W, c05 bool) {
 							}
 							rna := strings.ReplaceAll(s, "T", "U")
 							hr := shJudge(w, id, rna, "RNA", circ, ds, false)
+							if hrl := shJudge(w, id, strings.ToLower(rna), "RNA", circ, ds, false); hrl != hr && hrl != "" && hr != "" {
+								w.Violation(id, fmt.Sprintf("lower-casing the RNA spelling %q changes the seqhash (%s): %s vs %s", rna, flagName(circ, ds), hr, hrl), map[string]any{"sequence": rna})
+							}
 							if hr != "" && (len(hr) != len(h) || hr[:3] != h[:3] || hr[3] != 'R' || hr[4:] != h[4:]) {
 								w.Violation(id, fmt.Sprintf("RNA spelling %q and DNA spelling %q differ in more than the type letter (%s): %s vs %s", rna, s, flagName(circ, ds), hr, h), map[string]any{"sequence": s})
 							}
